@@ -354,7 +354,9 @@ def derived_case(draw, tier):
     n = tab[name][0]
     lmax = 30 if tier == 'quick' else 100
     ops = draw(gen.related_obs_specs(n, lmax=lmax, sigma=gen.fl(0.001, 0.3), rep_max=2))
-    path = draw(st.sampled_from(['autograd', 'num_grad', 'man_grad', 'array_mode', 'matrix_data']))
+    path = draw(st.sampled_from(['autograd', 'num_grad', 'man_grad', 'array_mode', 'matrix_data', 'array_mode2']))
+    if path == 'array_mode2' and n % 2:
+        path = 'array_mode'
     # keyword arguments of derived_observable are handed on to the function (value, replica means and derivative alike)
     kw = {'scale': draw(gen.fl(0.3, 3.0)), 'lin': draw(gen.fl(-2.0, 2.0))} if draw(st.integers(0, 2)) == 0 else None
     spec = {'fn': name, 'ops': ops, 'path': path, 'kw': kw}
@@ -413,6 +415,20 @@ def derived_oracle(spec):
         else:
             func1 = lambda x, **kw: func(x[0][0], **kw)  # noqa: E731
             res = pe.derived_observable(func1, np.array([[leaves]]), array_mode=True, **call_kw)
+    elif path == 'array_mode2':
+        # array_mode with two matrix operands (1 x n/2 each): the leaves of the second operand may live on replicas / ensembles
+        # that no entry of the first operand has (C01-m12, C10-m19: Jacobian blocks indexed by position among the operands
+        # that have data on a replica)
+        h = len(leaves) // 2
+        A_, B_ = np.array([leaves[:h]]), np.array([leaves[h:]])
+        if oshape is None:
+            func2 = lambda x, **kw: anp.array([func(anp.concatenate([x[0][0], x[1][0]]), **kw)])  # noqa: E731
+            res = pe.derived_observable(func2, [A_, B_], array_mode=True, **call_kw)[0]
+        else:
+            func2 = lambda x, **kw: func(anp.concatenate([x[0][0], x[1][0]]), **kw)  # noqa: E731
+            res = pe.derived_observable(func2, [A_, B_], array_mode=True, **call_kw)
+        na_, nb_ = set().union(*[set(o.names) for o in leaves[:h]]), set().union(*[set(o.names) for o in leaves[h:]])
+        labels_extra = 'second_operand_has_further_chains' if nb_ - na_ else 'operands_share_chains'
     elif path == 'matrix_data':
         # scalar mode (no array_mode) on data handed over as a 2-d array of observables: one row, or two rows when possible
         nl = len(leaves)
@@ -431,7 +447,7 @@ def derived_oracle(spec):
         labels.add('with_kwargs')
     if tiny != 1.0:
         labels.add('tiny_function')
-    if path == 'matrix_data':
+    if path in ('matrix_data', 'array_mode2'):
         labels.add(labels_extra)
     if oshape is None:
         require(is_obs(res), 'scalar function did not return an Obs', type(res).__name__)
